@@ -59,6 +59,95 @@ def r_link(ctx: Ctx):
     ctx.floor(rid, 'evaluated external attribute chains', n, 100)
 
 
+def r_link_private(ctx: Ctx):
+    """A store `obj.__name = v` made inside class A is mangled to obj._A__name.  When obj is an instance of another
+    class B that has its own private attribute __name (B's code reads obj._B__name) and nobody reads _A__name, the
+    store is dead and the attribute it was meant for keeps its old value."""
+    rid = 'R-LINK'
+    from ..index import mangle
+    roles = C.roles_of(ctx)
+    read_fields = set()
+    for f in ctx.ix.funcs.values():
+        if f.kind != 'function':
+            continue
+        cn = f.cls.name if f.cls is not None else None
+        for nd in ast.walk(f.node):
+            if isinstance(nd, ast.Attribute) and isinstance(nd.ctx, ast.Load):
+                read_fields.add(mangle(cn, nd.attr))
+    n = 0
+    for m in roles.mutations():
+        if m.kind != 'attr' or not isinstance(m.field, str) or m.func.cls is None:
+            continue
+        t = m.node.targets[0] if isinstance(m.node, ast.Assign) and m.node.targets else getattr(m.node, 'target', None)
+        if not isinstance(t, ast.Attribute) or not (t.attr.startswith('__') and not t.attr.endswith('__')):
+            continue
+        n += 1
+        if isinstance(t.value, ast.Name) and m.func.param_names and t.value.id == m.func.param_names[0]:
+            continue            # self.__x inside its own class
+        if m.field in read_fields:
+            continue
+        others = [o.cls for o in m.bases if o.cls is not None and o.cls is not m.func.cls and
+                  mangle(o.cls.name, t.attr) in read_fields]
+        if others:
+            ctx.fail(rid, m.func.short, m.loc(),
+                     f'{m.text()[:70]} is written inside {m.func.cls.name}, so it sets {m.field}, which nothing '
+                     f'reads; the private attribute {mangle(others[0].name, t.attr)} of {others[0].name} that the '
+                     f'name suggests keeps its old value (Python name mangling)',
+                     key=f'{rid}::{m.func.short}::dead-mangled-store::{t.attr}', detail={'decidable': True})
+    ctx.ok(rid, 'iOpt/*', f'{n} stores to name-mangled attributes: none is a dead store shadowing another class\'s '
+                          f'private attribute', 'iOpt/')
+
+
+def restore_typestate(ctx: Ctx, rid: str):
+    """Entry points outside the solving API that put trials into the search data (state restoring) must leave the
+    first-iteration flag cleared: otherwise the next iteration seeds the search again on top of the loaded trials
+    (trial count, accuracy and the record itself are then wrong)."""
+    roles = C.roles_of(ctx)
+    others = roles.other_entry_points()
+    if not others:
+        return
+    try:
+        drv = roles.iter_driver
+        sdg = roles.seeding
+    except RoleMissing:
+        return
+    # the flag: attribute of the driver's class tested in the branch that calls the seeding routine
+    flag = None
+    for nd in ast.walk(drv.node):
+        if isinstance(nd, ast.If) and any(isinstance(c, ast.Call) and sdg in ctx.pta.internal_callees(drv, c)
+                                          for b in nd.body for c in ast.walk(b)):
+            for a in ast.walk(nd.test):
+                if isinstance(a, ast.Attribute) and isinstance(a.value, ast.Name) and a.value.id == drv.param_names[0]:
+                    from ..index import mangle
+                    flag = mangle(drv.cls.name, a.attr)
+    if flag is None:
+        return
+    ins = {roles.fq(f) for f in roles.sd_method('InsertFirstDataItem') + roles.sd_method('InsertDataItem')}
+    sdc = ctx.ix.cls('SearchData')
+    for ep in others:
+        reach = ctx.pta.reachable([ep], stop=None)
+        fills = bool(reach & ins)
+        item = ctx.ix.cls('SearchDataItem')
+        links = {roles.fq(item.lookup(n_)) for n_ in ('SetLeft', 'SetRight') if item.lookup(n_)}
+        if reach & links:
+            fills = True          # it links items together: it builds (part of) the interval list
+        if not fills:
+            for m in roles.mutations():
+                if roles.fq(m.func) in reach and m.kind == 'mutcall' and m.field in ('append', 'extend', 'insert') and \
+                        isinstance(m.base_expr, ast.Attribute) and m.base_expr.attr == '_allTrials':
+                    fills = True
+        if not fills:
+            continue
+        clears = [m for m in roles.attr_writers(flag, drv.cls) if roles.fq(m.func) in reach or m.func is ep]
+        ok = any(isinstance(getattr(m.node, 'value', None), ast.Constant) and m.node.value.value is False for m in clears)
+        ctx.check(ok, rid, ep.short, ep.loc(),
+                  f'{ep.short} fills the search data and clears the first-iteration flag',
+                  f'{ep.short} puts trials into the search data but never clears the first-iteration flag '
+                  f'{drv.cls.name}.{flag}: the next iteration runs the seeding routine again on top of the loaded '
+                  f'trials (the trial count grows past the budget, earlier records are orphaned)',
+                  key=f'{rid}::{ep.short}::restore-leaves-first-iteration-flag', detail={'decidable': True})
+
+
 def _enclosing(m, node) -> str:
     best = '<module>'
     ln = getattr(node, 'lineno', 0)
@@ -614,6 +703,9 @@ def r03_8(ctx: Ctx):
 def check(ctx: Ctx):
     if C.want(ctx, 'R-LINK'):
         r_link(ctx)
+        r_link_private(ctx)
+    if C.want(ctx, 'R03.3'):
+        restore_typestate(ctx, 'R03.3')
     cands = C.roles_of(ctx).task_wrapper_candidates()
     if len(cands) > 1:
         ctx.rule('R03.2', 'who may evaluate: on the global path only the task wrapper dispatches to Problem.Calculate')
